@@ -140,19 +140,15 @@ func GetDocCommentOn(file *ast.File, obj types.Object) (cg *ast.CommentGroup, cl
 				}
 			}
 		case *ast.Field:
-			if n.Doc != nil {
-				return n.Doc, func() {
-					if len(n.Doc.List) == 0 {
-						n.Doc = nil
-					}
-				}
+			// A field (e.g. a method of an interface) owns its doc comment. Never fall back to
+			// the comment of the enclosing declaration or of the file: those belong to
+			// something else and would be consumed and rewritten on the field's behalf.
+			if n.Doc == nil {
+				return nil, func() {}
 			}
-		case *ast.File:
-			if n.Doc != nil {
-				return n.Doc, func() {
-					if len(n.Doc.List) == 0 {
-						n.Doc = nil
-					}
+			return n.Doc, func() {
+				if len(n.Doc.List) == 0 {
+					n.Doc = nil
 				}
 			}
 		}
